@@ -136,13 +136,13 @@ func init() {
 	properties = append(properties,
 		propertySpec{ID: "C15", Harnesses: []harnessSpec{
 			h("cont.H_Misuse", map[string]int{"order_schemes": 1}, map[string]int{"order_schemes": 2}, []string{"called"}, 30, "a table of 34 API calls with nil / zero / unregistered / mismatched / invalid arguments on a collection, an open provider+scope, and a closed provider+scope (call and state symbolic); no panic, the documented sentinel or typed error through errors.Is/As, collection still buildable after a rejected Add"),
-			h("cont.H_Faults", map[string]int{"order_schemes": 1}, map[string]int{"order_schemes": 2}, []string{"built", "build_failed", "resolution_failed"}, 30, "dependency chain 0->1->2 with symbolic lifetimes, registered directly or through nested modules; one constructor fails once (error or panic) at a symbolic invocation during Build or a resolution; error class and cause through BuildError / ResolutionError / ConstructorInvocationError / ModuleError, no caching of the failure, retry re-invokes and yields a fully wired value, everything constructed on the way closed exactly once"),
+			h("cont.H_Faults", map[string]int{"order_schemes": 1}, map[string]int{"order_schemes": 2}, []string{"built", "build_failed", "resolution_failed"}, 30, "dependency chain 0->1->2 with symbolic lifetimes, registered directly or through nested modules; one constructor - of shape (T, error), (T, A, error) or (result object, error) - fails once (error, wrapped error or panic) at a symbolic invocation during Build or a resolution; error class and cause through BuildError / ResolutionError / ConstructorInvocationError / ModuleError, no caching of the failure, retry re-invokes and yields a fully wired value, everything constructed on the way closed exactly once"),
 			h("cont.H_Dispose", dsp(0, 2, 3, 0, 1, 1, 0), dsp(0, 2, 3, 1, 1, 1, 0), append([]string{"build_failed"}, dspCov...), 0, dspDesc),
 		}, Own: []string{"C15.", "C10.leaked", "C10.closed_twice", "C10.failed_build_leak", "C10.failed_scope_leak"}},
 	)
 	properties = append(properties,
 		propertySpec{ID: "C17", Harnesses: []harnessSpec{
-			h("cont.H_Registry", map[string]int{"L": 2, "order_schemes": 1}, map[string]int{"L": 3, "order_schemes": 1}, []string{"rejected_add", "rejected_second_identity", "remove", "remove_keyed", "snapshot"}, 30, "history of L operations {Add directly, Add through a module, Remove, RemoveKeyed, Build} over a pool of two concrete types, an auxiliary type and an interface, keys {nil,k1}, group g1, six registration forms incl. multi-output ones that collide on their second identity; after every step Contains / ContainsKeyed / Count / ToSlice vs a reference registry; a final Build must use exactly the registry (resolvability per identity, group sizes, no constructor of a removed singleton runs); every provider built on the way is probed again after the later edits"),
+			h("cont.H_Registry", map[string]int{"L": 2, "order_schemes": 1}, map[string]int{"L": 3, "order_schemes": 1}, []string{"rejected_add", "rejected_second_identity", "rejected_unimplemented_interface", "remove", "remove_keyed", "snapshot"}, 30, "history of L operations {Add directly, Add through a module, Remove, RemoveKeyed, Build} over a pool of two concrete types, an auxiliary type and an interface, keys {nil,k1}, group g1, six registration forms incl. multi-output ones that collide on their second identity, plus registrations with two As options one of which names an interface the service does not implement (must be rejected whole); after every step Contains / ContainsKeyed / Count / ToSlice vs a reference registry; a final Build must use exactly the registry (resolvability per identity, group sizes, no constructor of a removed singleton runs); every provider built on the way is probed again after the later edits"),
 		}},
 	)
 	properties = append(properties,
